@@ -91,6 +91,19 @@ CHECKS = {
         note="Modulo the scipy.optimize.root contract (success => residual = 0) and uniqueness of the IAST solution; solver "
              "convergence on real isotherms is a bounded supplement (reported separately).",
         technique="symbolic execution of the real IAST code on contract stubs + z3 (nlsat/UF); z3 lemmas for closed forms"),
+    'C14': dict(
+        category='proof',
+        text="The real area_BET_raw, area_langmuir_raw, t_plot_raw, alpha_s_raw, da_plot_raw and find_limit_indices are executed "
+             "symbolically on 3..4 (thorough: 6) strictly increasing pressures whose loadings are generated from the textbook "
+             "governing equation with symbolic parameters; with linregress replaced by its exact-fit lemma every returning path "
+             "is proved to give back C, n_m, p_m, K, area, slope/intercept, pore volume, V0 and E; the fitted window is proved to "
+             "contain every point strictly inside the limits and none strictly outside, refusals happen only below three points, "
+             "and the automatic BET window obeys Rouquerol. Logarithmic transform identities and the thickness equations are "
+             "proved with sympy on the real helper functions.",
+        design_ref='§3 C14',
+        note="Modulo the linregress exact-fit lemma and numpy searchsorted/flatnonzero semantics (executed by real numpy on "
+             "object arrays); shape-bounded in the number of points; real arithmetic; sympy trusted.",
+        technique="symbolic execution of the real *_raw functions + z3 nlsat with a linregress contract stub; sympy for log transforms"),
 }
 
 NOT_YET = {
